@@ -13,6 +13,7 @@ import (
 	"go/constant"
 	"go/token"
 	"go/types"
+	"math"
 	"math/big"
 	"sort"
 	"strings"
@@ -642,6 +643,14 @@ func (f *frame) constVal(c *ssa.Const) Val {
 	case constant.String:
 		return StrV{isConst: true, s: constant.StringVal(c.Value)}
 	case constant.Int, constant.Float:
+		if f.r.e.Ext {
+			// (Ext) a constant of type float64 is the float64 it is rounded to at run time (math.Pi/2 is not exact π/2)
+			if b, ok := t.Underlying().(*types.Basic); ok && b.Kind() == types.Float64 {
+				if x, _ := constant.Float64Val(constant.ToFloat(c.Value)); !math.IsInf(x, 0) && !math.IsNaN(x) {
+					return Scalar{v: rfPoly(PolyConst(new(big.Rat).SetFloat64(x)))}
+				}
+			}
+		}
 		if r, ok := ratOfConst(c.Value); ok {
 			return Scalar{v: rfPoly(PolyConst(r))}
 		}
@@ -1374,10 +1383,15 @@ func (f *frame) sliceOp(x *ssa.Slice) Val {
 		return f.opaqueOf(x.Type(), "slice:"+name, nil)
 	}
 	f.r.note("sub-slice of %s in %s is treated as an unrelated slice", so.id, f.fn)
-	f.r.events = append(f.r.events, Event{Kind: EvBulkWrite, Slice: so, Callee: "slice-expression", Loop: f.r.curLoop(), Pos: x.Pos(), In: f.fn})
 	id := e.ST.Intern("len("+name+")", SymLen)
 	el := so.elem
-	return &SliceObj{id: name, origin: "slice", ln: e.symScalar(id), elem: el, content: map[string]Val{}}
+	sub := &SliceObj{id: name, origin: "slice", ln: e.symScalar(id), elem: el, content: map[string]Val{}}
+	ev := Event{Kind: EvBulkWrite, Slice: so, Callee: "slice-expression", Loop: f.r.curLoop(), Pos: x.Pos(), In: f.fn}
+	if e.Ext {
+		ev.Val = sub // (Ext) the sub-slice shares the array: clients that track aliases need it
+	}
+	f.r.events = append(f.r.events, ev)
+	return sub
 }
 
 // ---------------------------------------------------------------- calls
